@@ -149,6 +149,19 @@ def rule_answer_grammar(ctx):
                 n_und += 1
                 continue
             imprecise = outlang.imprecise()
+            if re.fullmatch(r"[()?:]*", lang or ""):
+                # nothing is written to the sink as far as the extraction sees: if the sink was handed to an object (a line writer built
+                # around it) whose methods do the writing, those writes were not followed
+                handed = []
+                for y in prog.with_closures(b):
+                    for s_ in y.calls():
+                        t_ = prog.body_for_callee(callee_of(s_), y) if callee_of(s_) else None
+                        if t_ is not None and t_.kind != "closure" and any(derives_from_local(y, a_, wparams[0]) for a_ in s_.node["args"] if op_place(a_) is not None) and y is b:
+                            handed.append(t_)
+                if handed:
+                    r.ok(anchor, "output language not extracted: the sink is handed to %s and written through an object built around it: NOT decided for this method" % handed[0].path.rsplit("::", 1)[-1], b.loc())
+                    n_und += 1
+                    continue
             n_dec += 1
             L = "^(?:%s)$" % lang
             lo, hi, loose = ("^(?:%s)$" % x for x in ref)
@@ -286,6 +299,11 @@ def rule_framework_writer(ctx):
         lang = outlang.sink_language(prog, b, ("param", wparams[0])) if wparams else None
         if lang is None:
             raise outlang.Undecided("no `dyn Write` parameter")
+        if re.fullmatch(r"[()?:]*", lang or ""):
+            for s_ in b.calls():
+                t_ = prog.body_for_callee(callee_of(s_), b) if callee_of(s_) else None
+                if t_ is not None and t_.kind != "closure" and any(derives_from_local(b, a_, wparams[0]) for a_ in s_.node["args"] if op_place(a_) is not None):
+                    raise outlang.Undecided("the sink is handed to %s and written through an object built around it" % t_.path.rsplit("::", 1)[-1])
         L, REFX = "^(?:%s)$" % lang, "^(?:%s)$" % FRAMEWORK_REF
         w1, w2 = _wit([REFX], [L]), _wit([L], [REFX])
         r.check(w1.get("witness") is None and "error" not in w1, b.id, "cannot-write:%r" % w1.get("witness"), "every framework text of the grammar can be written (L = %s)" % lang, "the framework writer cannot produce %r (its output language is %s) %s" % (w1.get("witness"), lang, w1.get("error", "")), b.loc())
